@@ -38,7 +38,7 @@ class Unit:
         self.parse()
         self.dir = os.path.join(BUILD, prop, self.name)
         self.fninfos = {}; self.lits = {}; self.extern = {}
-        self.rules = {}
+        self.rules = {}; self.auto_lowered = []; self.auto_failed = {}
 
     def parse(self):
         part = 1; l1 = []; l2 = []
@@ -88,6 +88,32 @@ class Unit:
             except lower.Unsupported as e:
                 raise Undecided('lowering of %s: %s' % (q, e))
             order.append(info.cname)
+        # repo callees that are neither listed nor given a contract/stub in the sidecar are lowered on
+        # demand (CBMC then sees their real body), so an edit that starts using another small helper
+        # of the library stays decidable
+        side = self.part1 + self.part2
+        cmap = None
+        progress = True
+        while progress:
+            progress = False
+            for fi in list(L.fns.values()):
+                for callee in sorted(fi.callees):
+                    if callee in L.fns or callee in L.extern_calls: continue
+                    if re.search(r'\b%s\s*\(' % re.escape(callee), side): continue
+                    if cmap is None:
+                        cmap = {}
+                        for q, lst in ix.functions.items():
+                            for f in lst:
+                                try: cmap.setdefault(L.fn_cname(f), f)
+                                except Exception: pass
+                    f = cmap.get(callee)
+                    if f is None or not any(c.get('kind') in ('CompoundStmt', 'CXXCtorInitializer') for c in f.get('inner', [])): continue
+                    try:
+                        L.lower_function(f); progress = True
+                        self.auto_lowered.append(callee)
+                    except lower.Unsupported as e:
+                        L.fns.pop(callee, None)
+                        self.auto_failed[callee] = str(e)
         self.fninfos = L.fns; self.lits = L.lits; self.extern = L.extern_calls
         for fi in L.fns.values():
             for r, c in fi.rules.items(): self.rules[r] = self.rules.get(r, 0) + c
@@ -112,9 +138,9 @@ class Unit:
         for cname, fi in L.fns.items():
             for lp in fi.loops:
                 mac = 'LOOP_%s_%d' % (cname, lp['ordinal'])
-                out.append('#ifndef %s\n#define %s\n#endif\n' % (mac, mac))
+                out.append('#ifndef %s\n#define %s __CPROVER_loop_invariant(1 == 1) /* default: no loop contract in the sidecar -> havoc abstraction */\n#endif\n' % (mac, mac))
         for fname, lname, it, caps in L.find_ifs:
-            out.append('#ifndef LOOP_%s_0\n#define LOOP_%s_0\n#endif\n' % (fname, fname))
+            out.append('#ifndef LOOP_%s_0\n#define LOOP_%s_0 __CPROVER_loop_invariant(1 == 1)\n#endif\n' % (fname, fname))
         out += [s + '\n' for s in L.static_locals]
         lambdas = [fi for fi in L.fns.values() if fi.cname.startswith('lambda_')]
         for fi in lambdas: out.append(fi.text + '\n')
